@@ -78,39 +78,45 @@ class ClockStatus:
 
 
 def validate_day(value: Optional[int]):
-    if value:
-        if 1 > value > 31:
+    if value is not None:
+        if not 1 <= value <= 31:
             raise ValueError(f"Day can only be within 1-31")
 
 
 def validate_month(value: Optional[int]):
-    if value:
-        if 1 > value > 12:
+    if value is not None:
+        if not 1 <= value <= 12:
             raise ValueError(f"Month can only be within 1-12")
 
 
 def validate_weekday(value: Optional[int]):
-    if value:
-        if 1 > value > 7:
+    if value is not None:
+        if not 1 <= value <= 7:
             raise ValueError(f"Day can only be within 1-7")
 
 
 def validate_hour(value: Optional[int]):
-    if value:
-        if 0 > value > 23:
+    if value is not None:
+        if not 0 <= value <= 23:
             raise ValueError(f"Minutes and seconds can only be within 0-23")
 
 
 def validate_minute_or_second(value: Optional[int]):
-    if value:
-        if 0 > value > 59:
+    if value is not None:
+        if not 0 <= value <= 59:
             raise ValueError(f"Minutes and seconds can only be within 0-59")
 
 
 def validate_hundredths(value: Optional[int]):
-    if value:
-        if 0 > value > 99:
+    if value is not None:
+        if not 0 <= value <= 99:
             raise ValueError(f"Hundredths can only be within 0-59")
+
+
+def validate_deviation(value: Optional[int]):
+    if value is not None:
+        if not -840 <= value <= 840:
+            raise ValueError(f"Deviation can only be within -840 - 840 minutes")
 
 
 def get_optional_value(
@@ -241,7 +247,7 @@ def utc_offset_minutes(offset_minutes: Optional[int]) -> Optional[tzoffset]:
     # TODO: We need a way to handle different ways of interpretating the timezone offset.
 
     """
-    if offset_minutes:
+    if offset_minutes is not None:
         return tzoffset(name=None, offset=-(offset_minutes * 60))
     else:
         return None
@@ -271,6 +277,7 @@ def datetime_from_bytes(source_bytes: bytes) -> Tuple[datetime, Optional[ClockSt
     deviation = get_optional_value(
         int.from_bytes(source_bytes[9:11], "big", signed=True), b"\x80\x00", signed=True
     )
+    validate_deviation(deviation)
     status_bytes = source_bytes[-1].to_bytes(1, "big")
     status = ClockStatus.from_bytes(status_bytes) if status_bytes else None
 
